@@ -24,4 +24,25 @@ PROPS = {
         ],
         "assumptions": COMMON_ASSUMPTIONS + ["argmax axes are non-negative axis numbers (as at every call site); data are > -inf when initial=-inf is passed"],
     },
+    "C19": {
+        "contracts": [
+            "lcm.functools.allow_only_kwargs",
+            "lcm.functools.allow_args",
+            "lcm.functools.convert_kwargs_to_args",
+            "lcm.functools.all_as_kwargs",
+            "lcm.functools.all_as_args",
+            "lcm.functools.get_union_of_arguments",
+            "lcm.dispatchers._base_productmap",
+            "lcm.dispatchers.productmap",
+            "lcm.dispatchers.vmap_1d",
+            "lcm.dispatchers.spacemap",
+        ],
+        "families": {
+            "quick": "keyword wrappers: every signature with <= 3 parameters (positional-only prefix / positional-or-keyword / keyword-only suffix), every keyword order, every positional/keyword split; dispatchers: signatures with <= 3 parameters x every ordered subset of mapped names x put_dense_first x scalar/tuple/dict outputs (capped deterministic sample of 120-150 instances per dispatcher). Lengths and all values symbolic.",
+            "thorough": "keyword wrappers: every signature with <= 5 parameters (the statement's bound), keyword orders capped at 24 per call shape; dispatchers: signatures with <= 4 parameters x every ordered subset x options (deterministic sample of <= 2000 instances per dispatcher). Plus CPython differential.",
+        },
+        "native_trials": 2,
+        "not_decided": ["dispatchers over functions with exactly five parameters are covered for the keyword wrappers only (family bound 4 for the vmap-based dispatchers)"],
+        "assumptions": COMMON_ASSUMPTIONS + ["the mapped function is pure and is applied to scalars (uninterpreted function of its bound arguments)", "jax.vmap contract: trace-like, out[i] = f(mapped arguments at i)"],
+    },
 }
